@@ -574,6 +574,9 @@ func buildResponse(sc *Scenario, v *BackendView) *builtResponse {
 			st = grpcTrailersFor(errSpec, b.PadDetails)
 		} else {
 			st = grpcTrailersFor(nil, false)
+			if b.OKMessage != "" {
+				st.Set("Grpc-Message", grpcMessageEncode(b.OKMessage))
+			}
 		}
 		if b.CodeRaw != "" {
 			st.Set("Grpc-Status", b.CodeRaw)
@@ -614,7 +617,11 @@ func buildResponse(sc *Scenario, v *BackendView) *builtResponse {
 					sb.WriteString(strings.ToLower(k) + ": " + val + "\r\n")
 				}
 			}
-			out.Body = appendFrame(out.Body, 0x80, []byte(sb.String()))
+			tp, tf := []byte(sb.String()), byte(0x80)
+			if b.CompressEnd && comp != "" {
+				tp, tf = compressBytes(comp, tp), 0x81
+			}
+			out.Body = appendFrame(out.Body, tf, tp)
 		}
 	case v.Protocol == ProtoConnect && v.Sub == "stream":
 		out.Header.Set("Content-Type", "application/connect+"+v.Codec)
@@ -646,7 +653,11 @@ func buildResponse(sc *Scenario, v *BackendView) *builtResponse {
 			end["metadata"] = map[string][]string(appTrailers)
 		}
 		ej, _ := json.Marshal(end)
-		out.Body = appendFrame(out.Body, 2, ej)
+		ef := byte(2)
+		if b.CompressEnd && comp != "" {
+			ej, ef = compressBytes(comp, ej), 3
+		}
+		out.Body = appendFrame(out.Body, ef, ej)
 	case v.Protocol == ProtoConnect:
 		for k, vals := range appTrailers {
 			out.Header["Trailer-"+k] = vals
@@ -777,6 +788,15 @@ func writeResponse(sc *Scenario, resp *builtResponse, w http.ResponseWriter) {
 	declared := b.TrailerStyle != "prefixed"
 	if len(resp.Trailer) > 0 && declared {
 		for k := range resp.Trailer {
+			// field names are case-insensitive, in the Trailer announcement too
+			switch b.TrailerCase {
+			case "lower":
+				k = strings.ToLower(k)
+			case "mixed":
+				k = strings.ToUpper(k[:1]) + strings.ToLower(k[1:])
+			case "upper":
+				k = strings.ToUpper(k)
+			}
 			h.Add("Trailer", k)
 		}
 	}
